@@ -13,6 +13,7 @@ import (
 	"encoding/json"
 	"fmt"
 	"os"
+	"os/exec"
 	"strings"
 
 	"github.com/ErdemOzgen/blackdagger/internal/dag"
@@ -59,6 +60,60 @@ func verdict(names []string, deps [][]string) (int, string) {
 	return 3, err.Error()
 }
 
+// verdictYAML takes the same verdict on the path a DAG file takes: the graph is written as YAML, loaded by the real
+// loader (dag.LoadYAML builds the steps, incl. their depends lists) and the loaded steps are handed to NewExecutionGraph.
+// A loader that rewrites the depends lists (drops or adds an edge) shows up as a verdict that differs from the graph in the file.
+func verdictYAML(names []string, deps [][]string) (int, string) {
+	var b strings.Builder
+	b.WriteString("steps:\n")
+	for i := range names {
+		fmt.Fprintf(&b, "  - name: %q\n    command: \"true\"\n", names[i])
+		if len(deps[i]) > 0 {
+			b.WriteString("    depends:\n")
+			for _, d := range deps[i] {
+				fmt.Fprintf(&b, "      - %q\n", d)
+			}
+		}
+	}
+	d, err := dag.LoadYAML([]byte(b.String()))
+	if err != nil {
+		return 3, "loader: " + err.Error()
+	}
+	if len(d.Steps) != len(names) {
+		return 3, fmt.Sprintf("loader: %d steps loaded from a file with %d", len(d.Steps), len(names))
+	}
+	_, err = scheduler.NewExecutionGraph(nil, d.Steps...)
+	if err == nil {
+		return 0, ""
+	}
+	switch {
+	case strings.Contains(err.Error(), "step not found"):
+		return 1, err.Error()
+	case strings.Contains(err.Error(), "cycle detected"):
+		return 2, err.Error()
+	}
+	return 3, err.Error()
+}
+
+// verdictFresh takes the verdict in a process of its own, as `start` does: node ids are process-global counters, so only the
+// first graph of a process has the ids 1..n a real run has.
+func verdictFresh(names []string, deps [][]string, yaml bool) (int, string) {
+	in, _ := json.Marshal(Case{Names: names, Deps: deps})
+	mode := "one"
+	if yaml {
+		mode = "oneyaml"
+	}
+	outb, err := exec.Command(os.Args[0], "-", mode, string(in)).Output()
+	if err != nil {
+		return 3, "fresh process failed: " + err.Error()
+	}
+	var c Case
+	if json.Unmarshal(outb, &c) != nil {
+		return 3, "fresh process: unreadable answer"
+	}
+	return c.Verdict, c.Err
+}
+
 // independent oracle: missing name first, else DFS three-colour cycle search
 func dfsVerdict(names []string, deps [][]string) int {
 	idx := map[string]int{}
@@ -99,6 +154,20 @@ func dfsVerdict(names []string, deps [][]string) int {
 func nm(i int) string { return fmt.Sprintf("s%d", i) }
 
 func main() {
+	if len(os.Args) > 3 && (os.Args[2] == "one" || os.Args[2] == "oneyaml") { // graph - one <case json>: one verdict, printed
+		var c Case
+		if json.Unmarshal([]byte(os.Args[3]), &c) != nil {
+			os.Exit(2)
+		}
+		if os.Args[2] == "one" {
+			c.Verdict, c.Err = verdict(c.Names, c.Deps)
+		} else {
+			c.Verdict, c.Err = verdictYAML(c.Names, c.Deps)
+		}
+		b, _ := json.Marshal(c)
+		os.Stdout.Write(b)
+		return
+	}
 	out, err := vh.NewOut(os.Args[1])
 	if err != nil {
 		panic(err)
@@ -120,6 +189,14 @@ func main() {
 				continue
 			}
 			v, e := verdict(c.Names, c.Deps)
+			switch {
+			case strings.HasPrefix(c.Stream, "fresh-yaml"):
+				v, e = verdictFresh(c.Names, c.Deps, true)
+			case strings.HasPrefix(c.Stream, "fresh"):
+				v, e = verdictFresh(c.Names, c.Deps, false)
+			case strings.HasPrefix(c.Stream, "yaml"):
+				v, e = verdictYAML(c.Names, c.Deps)
+			}
 			c.Verdict, c.Err, c.DFS = v, e, dfsVerdict(c.Names, c.Deps)
 			out.Put(c)
 		}
@@ -156,6 +233,61 @@ func main() {
 		for m := uint64(0); m < 1<<uint(n*n); m++ {
 			a, b := fromMask(n, m, true)
 			emit(fmt.Sprintf("all%d", n), a, b)
+			// the same graph as a DAG file, through the real loader
+			v, e := verdictYAML(a, b)
+			out.Put(Case{K: k, Stream: fmt.Sprintf("yaml-all%d", n), Names: a, Deps: b, Verdict: v, Err: e, DFS: dfsVerdict(a, b)})
+			k++
+		}
+	}
+	// fresh processes (node ids 1..n as in a real start): one 2-cycle {u,v} whose two edges are both essential, the other nodes
+	// ordered by a complete acyclic relation (ascending or descending) - every edge but the cycle's is harmless, none may be lost
+	freshCase := func(n, u, v int, desc bool, yaml bool) {
+		names := make([]string, n)
+		deps := make([][]string, n)
+		for i := 0; i < n; i++ {
+			names[i] = fmt.Sprintf("s%02d", i+1)
+			deps[i] = []string{}
+		}
+		deps[u] = append(deps[u], names[v])
+		for y := 0; y < n; y++ {
+			if y == u || y == v {
+				continue
+			}
+			for x := 0; x < n; x++ {
+				if x == u || x == v || x == y {
+					continue
+				}
+				if (desc && x > y) || (!desc && x < y) {
+					deps[y] = append(deps[y], names[x])
+				}
+			}
+		}
+		deps[v] = append(deps[v], names[u])
+		vd, e := verdictFresh(names, deps, yaml)
+		st := "fresh"
+		if yaml {
+			st = "fresh-yaml"
+		}
+		out.Put(Case{K: k, Stream: fmt.Sprintf("%s%d", st, n), Names: names, Deps: deps, Verdict: vd, Err: e, DFS: dfsVerdict(names, deps)})
+		k++
+	}
+	for _, n := range []int{12, 23} {
+		for u := 0; u < n; u++ {
+			for v := u + 1; v < n; v++ {
+				if tier != "thorough" && n > 12 && !rng.Chance(1, 6) {
+					continue
+				}
+				desc := rng.Chance(1, 2)
+				if tier == "thorough" || n == 12 {
+					freshCase(n, u, v, true, false)
+					freshCase(n, u, v, false, false)
+				} else {
+					freshCase(n, u, v, desc, false)
+				}
+				if rng.Chance(1, 8) {
+					freshCase(n, u, v, desc, true)
+				}
+			}
 		}
 	}
 	// n = 4 with self-loops: 2^16
@@ -239,5 +371,20 @@ func main() {
 			}
 		}
 		emit(fmt.Sprintf("rand-k%d", kind), names, deps)
+		if kind != 3 && (tier != "thorough" || c%20 == 0) {
+			// the same graph as a DAG file; plus, for a third of them, one step that also lists ITSELF among several
+			// dependencies (a self-loop hidden in a longer list)
+			if rng.Chance(1, 3) && n >= 2 {
+				a := rng.Below(n)
+				if len(deps[a]) == 0 {
+					deps[a] = append(deps[a], nm((a+1)%n))
+				}
+				pos := rng.Below(len(deps[a]) + 1)
+				deps[a] = append(deps[a][:pos:pos], append([]string{nm(a)}, deps[a][pos:]...)...)
+			}
+			v, e := verdictYAML(names, deps)
+			out.Put(Case{K: k, Stream: fmt.Sprintf("yaml-rand-k%d", kind), Names: names, Deps: deps, Verdict: v, Err: e, DFS: dfsVerdict(names, deps)})
+			k++
+		}
 	}
 }
